@@ -22,7 +22,7 @@ func ordinary(r *rand.Rand, size int) bval {
 		{32, "32"}, {0xfff, "0xfff"}, {0x1000, "0x1000"}, {0x1001, "0x1001"}, {0x2000, "0x2000"},
 		{n - 1, "size-1"}, {n, "size"}, {n + 1, "size+1"}, {n - 16, "size-16"}, {n - 15, "size-15"}, {n - 17, "size-17"}, {n / 2, "size/2"}, {n - 0x20, "size-0x20"},
 		{0x7fff, "0x7fff"}, {0x8000, "0x8000"}, {0xffff, "0xffff"}, {0x10000, "0x10000"},
-		{1 << 20, "1MiB"}, {16 << 20, "16MiB"}, {64 << 20, "64MiB"},
+		{1 << 20, "1MiB"}, {16 << 20, "16MiB"},
 		{0x7fffffff, "0x7fffffff"}, {0x80000000, "0x80000000"}, {0xffffffff, "0xffffffff"}, {0xfffff000, "0xfffff000"}, {0xffe00000, "0xffe00000"},
 		{0x100000000 - n, "4GiB-size"}, {1 << 32, "2^32"}, {1<<32 + 0x1000, "2^32+0x1000"},
 	}
@@ -58,7 +58,7 @@ func wrapCounts(rec uint64) []bval {
 	return out
 }
 
-var giantSizes = []bval{{1 << 28, "2^28"}, {1 << 30, "2^30"}, {1 << 32, "2^32"}, {1<<32 + 0x1000, "2^32+0x1000"}, {1 << 36, "2^36"}, {1 << 40, "2^40"},
+var giantSizes = []bval{{1 << 29, "2^29"}, {0x7fffffff, "0x7fffffff"}, {0x80000000, "0x80000000"}, {0xfffff000, "0xfffff000"}, {0xffffffff, "0xffffffff"}, {1 << 30, "2^30"}, {1 << 32, "2^32"}, {1<<32 + 0x1000, "2^32+0x1000"}, {1 << 36, "2^36"}, {1 << 40, "2^40"},
 	{1 << 62, "2^62"}, {1 << 63, "2^63"}, {^uint64(0) - 0xfff, "2^64-4096"}, {^uint64(0), "2^64-1"}, {^uint64(0) - 0xffff, "2^64-65536"}}
 
 var giantSevLens = []bval{{0x10000000, "2^28"}, {0x80000000, "2^31"}, {0xfffff000, "0xfffff000"}}
@@ -272,7 +272,14 @@ func mutate(r *rand.Rand, s *Spec, giant bool) []mut {
 			return mut{"tdx.sec.datasize", v.name}
 		}},
 		{4, func() mut { _, x := pickTdx(); v := wideAddr(r, size); x.Base = v.v; return mut{"tdx.sec.base", v.name} }},
-		{6, func() mut { k, x := pickTdx(); return setSize(k, x, ordinary(r, size)) }},
+		{6, func() mut {
+			k, x := pickTdx()
+			v := ordinary(r, size)
+			if v.v >= 1<<27 { // declared sizes of 128 MiB and more belong to the giant stratum
+				v = bval{uint64(1+r.IntN(8)) << 20, "1..8MiB"}
+			}
+			return setSize(k, x, v)
+		}},
 		{2, func() mut { _, x := pickTdx(); v := ordinary(r, size); x.Type = uint32(v.v); return mut{"tdx.sec.type", v.name} }},
 		{1, func() mut { _, x := pickTdx(); x.Type = uint32(r.IntN(5)); return mut{"tdx.sec.type", "0..4"} }},
 		{1, func() mut { _, x := pickTdx(); x.Attr = r.Uint32(); return mut{"tdx.sec.attr", "rand32"} }},
